@@ -275,8 +275,33 @@ def fork_side(inp):
               'never': lambda: True}[pred]()
         if not ok:
             raise errors.ScriptExecutionError('fork predicate failed')
-    tools.add_soft_fork(code, name, op, aliases)
     out = {'verdicts': [], 'compiled': {}, 'errors': []}
+    targets = [b'\x01\x01' + bytes([code, 2]),
+               b'\x01\x2b\x00\x04\x02\x01' + bytes([code, 1]) + b'\x01',
+               b'\x29\x00\x00\x02' + bytes([code, 0]) + b'\x2a\x00\x01']
+    if inp.get('prefork'):
+        # the node used the old table earlier in the same process: the same
+        # bytes were decompiled, compiled and run while the code was a NOP
+        pre = []
+        for t in targets:
+            try:
+                pre.append(parsing.decompile_script(t))
+                tools.Script.from_bytes(t)
+            except BaseException as e:
+                pre.append('ERR ' + repr(e)[:120])
+        out['decompiled_before'] = pre
+        for s in inp['scripts']:
+            try:
+                functions.run_auth_scripts([s])
+            except BaseException:
+                pass
+        for label, src in inp['sources'].items():
+            try:
+                parsing.compile_script(src.replace(name, f'NOP{code}')
+                                       .replace(name.lower(), f'NOP{code}'))
+            except BaseException:
+                pass
+    tools.add_soft_fork(code, name, op, aliases)
     for s in inp['scripts']:
         out['verdicts'].append(functions.run_auth_scripts([s]))
     for label, src in inp['sources'].items():
@@ -291,10 +316,19 @@ def fork_side(inp):
             '\n'.join(out['decompiled']))
     except BaseException as e:
         out['decompiled'] = 'ERR ' + repr(e)[:120]
+    out['after'] = []
+    for t in targets:
+        try:
+            ls = parsing.decompile_script(t)
+            out['after'].append([ls, parsing.compile_script('\n'.join(ls)),
+                                 tools.Script.from_bytes(t).src])
+        except BaseException as e:
+            out['after'].append(['ERR ' + repr(e)[:120], None, None])
+    out['targets'] = targets
     return out
 
 
-def judge_fork(ctx, rng, code, pred, nscripts):
+def judge_fork(ctx, rng, code, pred, nscripts, prefork=None):
     functions, parsing, _, _, _ = env.mods()
     name = f'OP_FORK{code}'
     aliases = [f'FK{code}', f'OP_FK{code}']
@@ -321,7 +355,9 @@ def judge_fork(ctx, rng, code, pred, nscripts):
     for k_, (tmpl, wantb) in enumerate(pairs):
         sources[f'placed{k_}'] = tmpl.format(name)
     inp = {'code': code, 'pred': pred, 'name': name, 'aliases': aliases,
-           'scripts': scripts, 'sources': sources}
+           'scripts': scripts, 'sources': sources,
+           'prefork': (rng.random() < 0.6) if prefork is None else prefork}
+    ctx.tab('fork_process_used_old_table_first', inp['prefork'])
     with tempfile.TemporaryDirectory(dir=os.path.join(
             os.path.dirname(os.path.dirname(os.path.dirname(
                 os.path.abspath(__file__)))), '.work')) as td:
@@ -374,6 +410,31 @@ def judge_fork(ctx, rng, code, pred, nscripts):
                       'round-trip by its name', {'kind': 'fork-decompile',
                                                  'code': code},
                       name, out.get('decompiled'))
+    for t, (ls, rb, src) in zip(out.get('targets', []), out.get('after', [])):
+        ctx.evaluated()
+        ok = isinstance(ls, list) and rb == t and \
+            any(name in ln for ln in ls) and isinstance(src, str) and \
+            name in src and not any(f'NOP{code}' in ln for ln in ls)
+        if not ok:
+            ctx.violation('fork-decompile', 'after the fork, bytes holding '
+                          'the forked code do not decompile by its name / do '
+                          'not round-trip' + (' (the process had decompiled '
+                                              'them before the fork)'
+                                              if inp['prefork'] else ''),
+                          {'kind': 'fork-decompile', 'code': code,
+                           'prefork': inp['prefork']}, name,
+                          repr(ls)[:200])
+            break
+    for pre in out.get('decompiled_before', []):
+        if not isinstance(pre, list) or \
+                not any(f'NOP{code}' in ln for ln in pre):
+            ctx.violation('nop-decompile-name', 'before the fork the code '
+                          'does not decompile as NOPn', {'kind':
+                                                         'fork-decompile',
+                                                         'code': code,
+                                                         'prefork': True},
+                          f'NOP{code}', repr(pre)[:200])
+            break
     ups = 0
     for s, (kind, count), up in zip(scripts, meta, out['verdicts']):
         plain = functions.run_auth_scripts([s])
@@ -457,7 +518,8 @@ def replay(case, ctx):
             ctx.violation('softfork-implication', 'plain VM rejects a script '
                           'the upgraded VM authorised', case)
     else:
-        judge_fork(ctx, ctx.rng('replay'), case['code'], 'never', 50)
+        judge_fork(ctx, ctx.rng('replay'), case['code'], 'never', 50,
+                   case.get('prefork'))
 
 
 if __name__ == '__main__':
